@@ -32,6 +32,17 @@ ASSUME Check("jw-S2-first-principles",
 ASSUME Check("sym-ops-hermitian",
   \A utd \in BOOLEAN : OpIsHermitian(JWN(NQ)) /\ OpIsHermitian(JWSz(NQ, utd)) /\ OpIsHermitian(JWS2(NQ, utd)))
 
+\* hard-core bosons: every paired determinant is an eigenstate of N (2 |P|), Sz (0) and S^2 (0), and HCBN has the
+\* eigenvalue 2 |P| on the qubit basis state with the pair occupations P
+ASSUME Check("hcb-paired-determinants",
+  LET np == NQ \div 2 IN
+  \A P \in SUBSET (0..(np - 1)) :
+     LET D == PairDet(P) IN
+     /\ Cardinality(D) = 2 * Cardinality(P)
+     /\ \A utd \in BOOLEAN : NAlpha(D, NQ, FALSE) = NBeta(D, NQ, FALSE)
+     /\ SpecS2Apply(VDet(D), NQ, FALSE) = VZero
+     /\ ApplyOp(HCBN(np), Basis(DetIndex(P, np), np), np) = VecScale(FromInt(2 * Cardinality(P)), Basis(DetIndex(P, np), np), np))
+
 \* ---- engines -------------------------------------------------------------------------------------
 CliffAlphabet(n) ==
        {G(nm, <<t>>, <<>>, 0) : nm \in {"H", "S", "X", "Y", "SDAG"}, t \in 0..(n-1)}
